@@ -131,8 +131,14 @@ def run(tier, seed):
                 # line and column numbers of every magnitude: hundreds of lines, more lines than 16 bits count, columns beyond 255 and beyond 65535
                 head = rng.choice(["", "\n", "; header\n", "   "] * 4 + ["\n" * 300, "; c\n" * 1000, "\n" * 70000])
                 indent = rng.choice([""] * 8 + [" " * 300, " " * 70000])
+                # character literals (also the one whose character is the line feed itself) before the failing form, on earlier lines and on its own line
+                extra = 0
+                if rng.random() < 0.15:
+                    head += "(define nlc #\\\n)\n(define chs (list #\\a #\\( #\\; #\\space))\n".replace("#\\space", "#\\s"); extra += 2
+                if rng.random() < 0.15:
+                    indent += "(list #\\a #\\b #\\c #\\d #\\e #\\f #\\g #\\h #\\i #\\j #\\k #\\l #\\m #\\n) "; extra += 1
                 text = head + "".join(p + sep() for p in parts[:-1]) + indent + parts[-1] + rng.choice(["", "\n", "  ; trailing\n", "\n\n(define after 1)\n"])
-                cases.append({"fault": f, "context": c, "text": text, "nforms": len(forms), "offender": g.offender, "ndefs": len(defs)}); n += 1
+                cases.append({"fault": f, "context": c, "text": text, "nforms": len(forms) + extra, "offender": g.offender, "ndefs": len(defs)}); n += 1
     # identifiers that come from a macro template (a user macro calling an undefined helper; unless/case/or on an interpreter that did not import
     # not/memv): the offending identifier is not in the failing form's text, so the location has to fall back into the failing form
     for k in range(per_cell * 2):
